@@ -243,7 +243,7 @@ def prims(rich=False):
 
 
 LAYOUT_PARAMS = [("u64", 2), ("u64", 3), ("u32", 2)]
-LAYOUT_PARAMS_RICH = LAYOUT_PARAMS + [("u64", 1), ("u64", 4), ("i32", 3), ("i64", 2)]
+LAYOUT_PARAMS_RICH = LAYOUT_PARAMS + [("u64", 1), ("u64", 4), ("i32", 3), ("i64", 2), ("f32", 2), ("f64", 3)]
 
 
 def wrappers(c, rich=False):
@@ -257,6 +257,9 @@ def wrappers(c, rich=False):
     yield St("backup", (), c)
     yield St("affine", (), c)
     yield St("shuffle", tuple((i + 1) % n for i in range(n)), c)
+    if rich:
+        yield St("shuffle", tuple(reversed(range(n))), c)
+        yield St("shuffle", tuple(0 for _ in range(n)), c)          # not a permutation: nothing in the code asks for one
     yield St("cast", ("f64",), c)
     yield St("cast", ("f32",), c)
     if rich:
